@@ -206,6 +206,8 @@ func c01(c *Ctx) (*report.Result, error) {
 	} else {
 		res.Undec("O1.7", "proxy-id table obligations", "", "C05 rule set failed")
 	}
+	res.RuleDoc["O1.9"] = "an acknowledgement forwarded between proxy nodes travels on the stream of its own (target shard, source shard) pair and a nil result means it was sent (same analysis as O9.4): the node that owns the source shard credits an incoming ack to the target shard of the stream it arrives on, and the minimum over targets is what the source is told"
+	checkIntraSenders(c, res, "O1.9")
 	res.RuleDoc["O1.8"] = "a silent target constrains the acknowledgement: before a task batch is handed to a target shard, the receiver makes sure ackByTarget has an entry for that target (created, only if absent, with the id of the first task handed over, under ackMu) - the upstream ack is the minimum over the entries, so a target without an entry (no ack yet) would not hold it back"
 	if f := resolve(c, res, "O1.8", anchor{"proxy", "*proxyStreamReceiver", "recvReplicationMessages"}); f != nil {
 		checkSilentTargets(c, res, f, "O1.8")
@@ -556,6 +558,12 @@ func c03(c *Ctx) (*report.Result, error) {
 	res.RuleDoc["O3.6"] = "no phantom entry pins the minimum: an ackByTarget entry created at hand-over is keyed by the very target the tasks are handed to (the key that was tested for absence) - an entry under any other key belongs to a target that may never report, and the aggregated ack would stay below the final watermark for ever (same analysis as O1.8)"
 	if g := resolve(c, res, "O3.6", anchor{"proxy", "*proxyStreamReceiver", "recvReplicationMessages"}); g != nil {
 		checkSilentTargets(c, res, g, "O3.6")
+	}
+	res.RuleDoc["O3.7"] = "the receive path cannot wedge on the registries' locks: no critical section of package proxy re-acquires its own mutex (a recursive RLock deadlocks as soon as a writer queues between the two acquisitions) and the mutexes nest in one order (same analysis as O8.6) - a wedged receiver never reads the source's later watermarks"
+	if spx, err := c.Prog.SSAPkg("proxy"); err == nil {
+		checkReentrancy(c, res, "O3.7", []*ssa.Package{spx}, func(key string) bool {
+			return !strings.HasPrefix(key, "ReplicationStreamObserver.") && !strings.HasPrefix(key, "StreamTracker.")
+		})
 	}
 	res.RuleDoc["O3.5"] = "retry by repetition: every watermark-only batch received is fanned out again (no path from the empty-batch test to the next Recv skips the local or the remote broadcast): the per-target hand-off is a non-blocking send that may drop, so the source's periodic repeat is the only retry"
 	if g := resolve(c, res, "O3.5", anchor{"proxy", "*proxyStreamReceiver", "recvReplicationMessages"}); g != nil {
